@@ -257,6 +257,9 @@ func formCatalogue() []formCase {
 			formCase{"value-" + ln, []Reg{{Ctor: -1, Value: "S6", Life: l}}},
 			formCase{"value-keyed-" + ln, []Reg{{Ctor: -1, Value: "S6", Life: l, Name: "k"}}},
 			formCase{"value-alias-" + ln, []Reg{{Ctor: -1, Value: "S7", Life: l, As: []string{"IS7"}}}},
+			formCase{"values-of-one-type-aliased-and-keyed-" + ln, []Reg{{Ctor: -1, Value: "S7", Life: l, Name: "k", As: []string{"IS7", "IA"}}, {Ctor: -1, Value: "S7", Life: l, Name: "k2", As: []string{"IS7", "IA"}}, {Ctor: -1, Value: "S7", Life: l}}},
+			formCase{"values-of-one-type-aliased-and-grouped-" + ln, []Reg{{Ctor: -1, Value: "S6", Life: l, Group: "g", As: []string{"IS6", "IB"}}, {Ctor: -1, Value: "S6", Life: l, Group: "g", As: []string{"IS6", "IB"}}, {Ctor: -1, Value: "S6", Life: l, As: []string{"IS6"}}}},
+			formCase{"values-of-one-type-aliased-consumed-" + ln, []Reg{{Ctor: -1, Value: "K0", Life: l, Name: "k"}, {Ctor: -1, Value: "K0", Life: l, As: []string{"IK0"}}, mkReg("InU_2_1_Iface", l), mkReg("InU_3_1_Keyed", l)}},
 			formCase{"multiret-" + ln, []Reg{mkReg("MR_K0K1", l)}},
 			formCase{"multiret-err-dep-" + ln, []Reg{mkReg("Leaf_K0_b", l), mkReg("MR_K2K3e", l)}},
 			formCase{"out-plain-" + ln, []Reg{mkReg("OutP_K0K1", l)}},
